@@ -31,6 +31,16 @@ VAR_OPERATION_COMMANDS = JMCFunction.get_subclasses(FuncType.VARIABLE_OPERATION)
 CASTING_TYPES = ("command", "const", "var", "score")
 
 
+def is_expression_operator(operator: str) -> bool:
+    """Whether the operator is `:=`, `:+=`, `:-=`, `:*=`, `:/=` or `:%=` (the right side is an expression)"""
+    return operator == ":=" or (
+        len(operator) == 3
+        and operator.startswith(":")
+        and operator.endswith("=")
+        and operator[1] in "+-*/%"
+    )
+
+
 def variable_operation(
     tokens: list[Token],
     tokenizer: Tokenizer,
@@ -90,7 +100,11 @@ def variable_operation(
             "Invalid objective:selector[] syntax", tokens[0], tokenizer
         )
 
-    if len(tokens) > 3 and tokens[2].string == "-" and tokens[1].string != ":=":
+    if (
+        len(tokens) > 3
+        and tokens[2].string == "-"
+        and not is_expression_operator(tokens[1].string)
+    ):
         tokens[2] = tokenizer.merge_tokens(tokens[2:4])
         del tokens[3]
 
@@ -262,12 +276,7 @@ Example: `$var = (const) $(my_int)`""",
                 datapack,
             )
 
-    if operator == ":=" or (
-        len(operator) == 3
-        and operator.startswith(":")
-        and operator.endswith("=")
-        and operator[1] in "+-*/%"
-    ):
+    if is_expression_operator(operator):
         if len(tokens) == 2:
             raise JMCSyntaxException(
                 f"Expected keyword after operator{tokens[1].string} (got nothing)",
